@@ -261,7 +261,10 @@ def rand_case(rng):
     kw = pairs(rng.randint(0, 4))
     ops = []
     for _ in range(rng.randint(0, 4)):
-        o = rng.choice(["update", "setitem", "add_class", "add_style", "remove_class"])
+        o = rng.choice(["update", "setitem", "add_class", "add_style", "remove_class", "update", "setitem", "add_class", "add_style", "remove_class", "continue_on_copy"])
+        if o == "continue_on_copy":
+            ops.append({"op": o, "how": rng.choice(["copy", "tagify"])})
+            continue
         if o == "update":
             ops.append({"op": "update", "args": [{"d": pairs(rng.randint(0, 2))} for _ in range(rng.randint(0, 2))],
                         "kw": pairs(rng.randint(0, 2))})
